@@ -3,6 +3,9 @@ package main
 import (
 	"fmt"
 	"math/rand"
+	"time"
+
+	bpmn "github.com/olive-io/bpmn/v2"
 )
 
 func init() { commands["c12"] = runC12 }
@@ -86,7 +89,13 @@ func runC12(env *Env) {
 			cs := fmt.Sprintf("program %s, variables %v, script seed %d", wrapped, env0, sc.seed)
 			env.Current(cs)
 			ch, wr := sc.funcs()
-			ow := RunBlk(wrapped, env0, ch, wr, 80)
+			var sched []bpmn.Option
+			if s%2 == 1 { // every other script: flows are created slowly, monitors run ahead of the tokens
+				sched = append(sched, bpmn.WithIdGenerator(slowGen{2 * time.Millisecond}))
+				cs += ", slow flow creation"
+				env.Current(cs)
+			}
+			ow := RunBlk(wrapped, env0, ch, wr, 80, sched...)
 			ch, wr = sc.funcs()
 			of := RunBlk(flat, env0, ch, wr, 80)
 			rep.Evaluations++
